@@ -279,7 +279,11 @@ func (ch *channel) Free() {
 
 // receive is called by the connection to receive a message.
 func (ch *channel) receive(msg pmpx.Message) status.Status {
-	s := ch.acquire()
+	// The channel can be freed between the map lookup and this call, ignore the message then.
+	s, ok := ch.tryAcquire()
+	if !ok {
+		return status.OK
+	}
 	defer ch.release()
 
 	// Ignore messages if closed
@@ -316,6 +320,25 @@ func (ch *channel) acquire() *channelState {
 		panic("acquire of freed channel")
 	}
 	return s
+}
+
+// tryAcquire increments the refcounter if the channel is not freed yet, and returns the channel state.
+func (ch *channel) tryAcquire() (*channelState, bool) {
+	for {
+		refs := ch.refs.Load()
+		if refs <= 0 {
+			return nil, false
+		}
+		if !ch.refs.CompareAndSwap(refs, refs+1) {
+			continue
+		}
+
+		s := ch.state.Load()
+		if s == nil {
+			panic("acquire of freed channel")
+		}
+		return s, true
+	}
 }
 
 // release decrements the internal refs counter.
